@@ -113,3 +113,22 @@ def length_near(rng, cap):
     if x < 0.6:
         return rng.randint(1, min(cap, 8))
     return rng.randint(1, cap)
+
+
+def find_mode(data):
+    """ISO mode selection for one part (numeric < alphanumeric < kanji < byte), on message bytes."""
+    if data and all(0x30 <= b <= 0x39 for b in data):
+        return 'numeric'
+    al = set(ALNUM.encode('ascii'))
+    if data and all(b in al for b in data):
+        return 'alphanumeric'
+    if data and len(data) % 2 == 0:
+        ok = True
+        for i in range(0, len(data), 2):
+            code = (data[i] << 8) | data[i + 1]
+            if not (0x8140 <= code <= 0x9ffc or 0xe040 <= code <= 0xebbf):
+                ok = False
+                break
+        if ok:
+            return 'kanji'
+    return 'byte'
